@@ -1,10 +1,10 @@
 CONSTANTS
-  Phases <- MCPhases
+  Phases <- DecPhases
   Js <- MCJs
   Ds <- MCDs
   Divisors <- MCDivisors
-  Sigs <- MCSigs
-  SigDen = 4
+  Sigs <- DecSigs
+  SigDen = 20
   Kmax <- MCKmax
   SmallMax <- MCSmallMax
   GridStride <- MCGridStride
